@@ -198,7 +198,13 @@ use core::{
 };
 use fancy_panic::FancyPanic;
 
+#[cfg(not(embedded_graphics_verif_mock8))]
 const SIZE: usize = 64;
+// Verification hook (off by default): with `--cfg embedded_graphics_verif_mock8` the mock display
+// is compiled with a side length of 8 so that the operations that walk every cell can be model
+// checked. Nothing else changes; the guard is never set by a normal build.
+#[cfg(embedded_graphics_verif_mock8)]
+const SIZE: usize = 8;
 const DISPLAY_AREA: Rectangle = Rectangle::new(Point::zero(), Size::new_equal(SIZE as u32));
 
 /// Mock display struct
